@@ -599,33 +599,55 @@ example : decode [] [0xE0, 0x80] = ([0xDCE0, 0xDC80], []) ∧ decode [] [0xED, 0
 
 /-! ## 9. the read path as it is: 1024-byte reads, EOF, `OSError`; end to end -/
 
-/-- the text a byte stream decodes to (a trailing incomplete sequence stays in the decoder) -/
-def decodedText (bs : Bytes) : Text := (decode [] bs).1.map Char.ofNat
+/-- the text a byte stream decodes to under the input's encoding (UTF-8: a trailing incomplete
+    sequence stays in the decoder) -/
+def decodedText (c : Codec) (bs : Bytes) : Text := (c.decode [] bs).1.map Char.ofNat
 
-/-- **End to end: pipe → `os.read(≤ count)` → incremental decoder → parser → flush = the spec.**
+/-- **End to end, for the encoding the input was created with: pipe → `os.read(≤ count)` →
+    incremental decoder of `stdin.encoding` → parser → flush = the spec on the DECODED text.**
     Whatever bytes are waiting on the descriptor, `n` calls of `read_keys()` (enough to drain them,
     `count` = 1024 in the source) followed by `flush_keys()` deliver exactly the key presses of the
-    tokenisation spec on the decoded text, wherever the 1024-byte boundaries fall. -/
-theorem pipe_refines_spec {cfg : Cfg} (h : WF cfg) (h2 : WF2 cfg) (count : Nat) (hc : 1 ≤ count)
-    (bs : Bytes) (n : Nat) (hn : bs.length ≤ n * count) :
-    (Inp.flushKeys cfg (Inp.readKeysN cfg count n Inp.init ⟨bs, false, false⟩).1).p
-      = St.after St.init (spec cfg (decodedText bs)) := by
-  rw [readKeysN_drain cfg count hc n Inp.init ⟨bs, false, false⟩ inpReady_init rfl rfl rfl hn]
-  simp only [Inp.flushKeys, readKeys, Inp.init, Reader.init]
+    tokenisation spec on the text these bytes spell in that encoding, wherever the read boundaries
+    fall. -/
+theorem pipe_refines_spec {cfg : Cfg} (h : WF cfg) (h2 : WF2 cfg) (c : Codec) (count : Nat)
+    (hc : 1 ≤ count) (bs : Bytes) (n : Nat) (hn : bs.length ≤ n * count) :
+    (Inp.flushKeys cfg (Inp.readKeysN cfg count n (Inp.new c) ⟨bs, false, false⟩).1).p
+      = St.after St.init (spec cfg (decodedText c bs)) := by
+  rw [readKeysN_drain cfg count hc n (Inp.new c) ⟨bs, false, false⟩ (inpReady_new c) rfl rfl rfl hn]
+  simp only [Inp.flushKeys, readKeysC, Inp.new, Reader.new, Inp.of]
   exact flush_feed_refines h h2 St.init atRest_init _
 
 /-- … and with the writers gone: everything written is delivered, then `closed` is set -/
-theorem pipe_eof_refines_spec {cfg : Cfg} (h : WF cfg) (h2 : WF2 cfg) (count : Nat) (hc : 1 ≤ count)
-    (bs : Bytes) (n : Nat) (hn : bs.length + count ≤ n * count) :
-    let r := (Inp.readKeysN cfg count n Inp.init ⟨bs, true, false⟩).1
-    r.closed = true ∧ (Inp.flushKeys cfg r).p = St.after St.init (spec cfg (decodedText bs)) := by
+theorem pipe_eof_refines_spec {cfg : Cfg} (h : WF cfg) (h2 : WF2 cfg) (c : Codec) (count : Nat)
+    (hc : 1 ≤ count) (bs : Bytes) (n : Nat) (hn : bs.length + count ≤ n * count) :
+    let r := (Inp.readKeysN cfg count n (Inp.new c) ⟨bs, true, false⟩).1
+    r.closed = true ∧ (Inp.flushKeys cfg r).p = St.after St.init (spec cfg (decodedText c bs)) := by
   intro r
   have hr : r = _ := congrArg Prod.fst
-    (readKeysN_eof cfg count hc n Inp.init ⟨bs, true, false⟩ inpReady_init rfl rfl rfl hn)
+    (readKeysN_eof cfg count hc n (Inp.new c) ⟨bs, true, false⟩ (inpReady_new c) rfl rfl rfl hn)
   rw [hr]
   refine ⟨rfl, ?_⟩
-  simp only [Inp.flushKeys, readKeys, Inp.init, Reader.init]
+  simp only [Inp.flushKeys, readKeysC, Inp.new, Reader.new, Inp.of]
   exact flush_feed_refines h h2 St.init atRest_init _
+
+/-- **single-byte code pages: the decoded text has exactly one character per byte** — the byte's
+    table entry, or its escape — so no two input characters can merge into one key press and no
+    character can be split (the reader is trivially chunk independent: nothing is ever pending) -/
+theorem decodedText_single (tbl : List (Option Nat)) (bs : Bytes) :
+    decodedText (.single tbl) bs = bs.map (fun b => Char.ofNat (sbChar tbl b)) ∧
+    (decodedText (.single tbl) bs).length = bs.length := by
+  simp [decodedText, Codec.decode]
+
+/-- a Latin-1 terminal: `é` is the byte E9, `Ã©` the bytes C3 A9 (two characters, two presses),
+    9B is the 8-bit table sequence — whereas a UTF-8 terminal reads C3 A9 as one `é` -/
+example :
+    (codecOf "latin-1").map (fun c =>
+      (Inp.flushKeys genCfg (Inp.readKeysN genCfg 3 2 (Inp.new c) ⟨[0xE9, 0xC3, 0xA9, 0x9B], false, false⟩).1).p.out)
+      = some [⟨"é", ['é']⟩, ⟨"Ã", ['Ã']⟩, ⟨"©", ['©']⟩, ⟨"s-escape", [Char.ofNat 0x9B]⟩]
+    ∧ (Inp.flushKeys genCfg (Inp.readKeysN genCfg 3 2 (Inp.new .utf8) ⟨[0xC3, 0xA9], false, false⟩).1).p.out
+      = [⟨"é", ['é']⟩]
+    ∧ (Inp.ofEncoding "no-such-codec").isNone = true := by
+  decide +kernel
 
 /-- 3 bytes per read: `世` (E4 B8 96) + `ESC [ A` + `é` (C3 A9), cut inside the escape sequence
     and inside `é`; three reads drain it -/
@@ -633,7 +655,7 @@ example :
     let bs : Bytes := [0xE4, 0xB8, 0x96, 27, 91, 65, 0xC3, 0xA9]
     (Inp.flushKeys genCfg (Inp.readKeysN genCfg 3 3 Inp.init ⟨bs, false, false⟩).1).p.out
       = [⟨"世", ['世']⟩, ⟨"up", [ESC, '[', 'A']⟩, ⟨"é", ['é']⟩]
-    ∧ (spec genCfg (decodedText bs)).keys = [⟨"世", ['世']⟩, ⟨"up", [ESC, '[', 'A']⟩, ⟨"é", ['é']⟩] := by
+    ∧ (spec genCfg (decodedText .utf8 bs)).keys = [⟨"世", ['世']⟩, ⟨"up", [ESC, '[', 'A']⟩, ⟨"é", ['é']⟩] := by
   decide +kernel
 
 /-- EOF: the fourth read finds nothing and sets `closed`; a dead descriptor closes at once -/
